@@ -382,16 +382,23 @@ package zerolog
 //@   flag frontend
 //@   requires f != nil
 
+// C02: every element of errs, nil included, becomes an element of the array (at least one
+// element call per entry: a marshaler reached through Interface may log through arrays itself)
+//@ track Array.Object, Array.Err, Array.Str, Array.Interface
 //@ func (*Event).Errs(e, key, errs) res
 //@   flag frontend
+//@   ensures [C02] e != nil ==> ncalls(Array.Object) + ncalls(Array.Err) + ncalls(Array.Str) + ncalls(Array.Interface) >= old(ncalls(Array.Object)) + old(ncalls(Array.Err)) + old(ncalls(Array.Str)) + old(ncalls(Array.Interface)) + len(errs)
 //@   loop 1:
 //@     invariant 0 <= rangeindex + 1 && rangeindex + 1 <= len(errs)
+//@     invariant [C02] ncalls(Array.Object) + ncalls(Array.Err) + ncalls(Array.Str) + ncalls(Array.Interface) >= old(ncalls(Array.Object)) + old(ncalls(Array.Err)) + old(ncalls(Array.Str)) + old(ncalls(Array.Interface)) + rangeindex + 1
 //@     invariant arr != nil && listbuf(arr.buf) && objbuf(e.buf) && same(e.buf, old(e.buf))
 
 //@ func (Context).Errs(c, key, errs) res
 //@   flag frontend
+//@   ensures [C02] ncalls(Array.Object) + ncalls(Array.Err) + ncalls(Array.Str) + ncalls(Array.Interface) >= old(ncalls(Array.Object)) + old(ncalls(Array.Err)) + old(ncalls(Array.Str)) + old(ncalls(Array.Interface)) + len(errs)
 //@   loop 1:
 //@     invariant 0 <= rangeindex + 1 && rangeindex + 1 <= len(errs)
+//@     invariant [C02] ncalls(Array.Object) + ncalls(Array.Err) + ncalls(Array.Str) + ncalls(Array.Interface) >= old(ncalls(Array.Object)) + old(ncalls(Array.Err)) + old(ncalls(Array.Str)) + old(ncalls(Array.Interface)) + rangeindex + 1
 //@     invariant arr != nil && listbuf(arr.buf)
 
 //@ func (Context).Reset(c) res
